@@ -57,7 +57,7 @@ SCENARIOS: Dict[str, List[Tuple[str, List[List[Any]]]]] = {
     "S3b": [("A", [["connect", "a", "A", "B", 0, P], ["send", "a", "m1"], ["send", "a", "m2"], ["send", "a", "m3"]]),
             ("B", [["connect", "b", "B", "A", 0, P], ["recv", "b"]])],
     "S4": [("A", [["connect", "a", "A", "B", 0, P], ["send", "a", "m1"], ["send", "a", "m2"]]),
-           ("B", [["connect", "b", "B", "A", 0, P], ["nb", "b"], ["nb", "b"], ["drain_to", "b", 2], ["nb", "b"]])],
+           ("B", [["connect", "b", "B", "A", 0, P], ["nb", "b"], ["nbt", "b"], ["drain_to", "b", 2], ["nbt", "b"]])],
     "S5": [("A", [["connect", "a0", "A", "B", 0, P], ["connect", "a1", "A", "B", 1, P], ["send", "a0", "x1"],
                   ["send", "a1", "y1"], ["send", "a0", "x2"], ["send", "a1", "y2"]]),
            ("B", [["connect", "b0", "B", "A", 0, P], ["connect", "b1", "B", "A", 1, P], ["recv", "b1"], ["recv", "b0"],
@@ -173,6 +173,15 @@ class Env:
         elif k == "nb":
             try:
                 m = self.socks[op[1]].recv(block=False)
+            except RuntimeError as exc:
+                log.append(("nb", op[1], None, t0, ex.now(), t.nsleeps - s0, str(exc)[:60]))
+            else:
+                self.got[op[1]] = self.got.get(op[1], 0) + 1
+                log.append(("nb", op[1], m, t0, ex.now(), t.nsleeps - s0, ""))
+        elif k == "nbt":
+            # non-blocking receive with a timeout given as well: block=False wins, the timeout must not make it wait
+            try:
+                m = self.socks[op[1]].recv(block=False, timeout=5.0)
             except RuntimeError as exc:
                 log.append(("nb", op[1], None, t0, ex.now(), t.nsleeps - s0, str(exc)[:60]))
             else:
